@@ -98,7 +98,7 @@ class PersistentMixin(Module):
         try:
             with open(self.persistentFile, 'r', encoding='utf-8') as f:
                 self.persistentData = json.load(f)
-        except (OSError, ValueError):
+        except (OSError, ValueError, RecursionError):  # unreadable, not JSON, or nested beyond the decoder limit
             self.persistentData = {}
         if not isinstance(self.persistentData, dict):
             # valid JSON, but not a saved snapshot
